@@ -50,7 +50,8 @@ func (s spSpec) String() string { return fmt.Sprintf("%s@%d.%d", s.Kind, s.Heigh
 
 type laterSpec struct {
 	spSpec
-	Via string `json:"via"` // mimic-direct | mimic-box | handler | remote-store
+	Via      string `json:"via"`       // mimic-direct | mimic-box | handler | remote-store
+	FactKind string `json:"fact_kind"` // kind of ballot fact (kinds_test.go)
 }
 
 type histSpec struct {
@@ -63,7 +64,12 @@ type histSpec struct {
 	Later         []laterSpec `json:"later"`
 	Offers        []string    `json:"offers"`
 	Concurrent    bool        `json:"offers_concurrent"`
-	State         string      `json:"state"`
+	// kinds of ballot fact (kinds_test.go): of the first remote ballots, of the
+	// handler's first ballot and of every offer
+	FirstKinds  []string `json:"first_kinds"`
+	HandlerKind string   `json:"first_handler_kind,omitempty"`
+	OfferKinds  []string `json:"offer_kinds"`
+	State       string   `json:"state"`
 }
 
 // histState is what onWire / bbWrap.Broadcast know about the running history
@@ -124,13 +130,13 @@ func (g *rig) newPctx(rng *rand.Rand, sp spSpec) (*pctx, error) {
 	return c, err
 }
 
-// ballot makes a valid ballot for the stage point, signed by node n, with a
-// fact no earlier call returned.
-func (c *pctx) ballot(g *rig, rng *rand.Rand, n base.LocalNode) (base.Ballot, error) {
+// ballotKind makes a valid ballot for the stage point, signed by node n, with
+// a fact of the given kind no earlier call returned.
+func (c *pctx) ballotKind(g *rig, rng *rand.Rand, n base.LocalNode, kind string) (base.Ballot, error) {
 	var bl base.Ballot
 	switch {
 	case c.sp.Kind == "ACCEPT":
-		sf := isaac.NewACCEPTBallotSignFact(isaac.NewACCEPTBallotFact(c.point, c.proposal, g.hash(rng), nil))
+		sf := isaac.NewACCEPTBallotSignFact(newACCEPTFact(kind, c.point, c.proposal, g.hash(rng)))
 		if err := sf.NodeSign(n.Privatekey(), g.networkID, n.Address()); err != nil {
 			return nil, err
 		}
@@ -146,7 +152,7 @@ func (c *pctx) ballot(g *rig, rng *rand.Rand, n base.LocalNode) (base.Ballot, er
 		}
 		bl = isaac.NewINITBallot(vp, sf, nil)
 	default:
-		sf := isaac.NewINITBallotSignFact(isaac.NewINITBallotFact(c.point, c.prevBlock, g.hash(rng), nil))
+		sf := isaac.NewINITBallotSignFact(newINITFact(kind, c.point, c.prevBlock, g.hash(rng)))
 		if err := sf.NodeSign(n.Privatekey(), g.networkID, n.Address()); err != nil {
 			return nil, err
 		}
@@ -175,11 +181,14 @@ func (c *pctx) signer(g *rig, i int) base.LocalNode {
 // timer-broadcast the local ballot of the stage point. Whatever the handler
 // would sign now differs from what it or anybody else signed before: a new
 // proposal is selected / a new block hash / another expel voteproof is given.
-func (c *pctx) handlerPrepare(g *rig, rng *rand.Rand) {
+// kind: the kind of fact the handler is made to sign (an empty proposal is
+// selected; the fact the voteproof handler makes for a proposal without
+// operations or a not processed one is handed over).
+func (c *pctx) handlerPrepareKind(g *rig, rng *rand.Rand, kind string) {
 	var err error
 	switch {
 	case c.sp.Kind == "ACCEPT":
-		err = g.handler.PrepareACCEPTBallot(c.ivp, g.hash(rng), time.Nanosecond)
+		err = g.handlerACCEPT(c.ivp, kind, g.hash(rng))
 	case c.sp.Kind == "SC":
 		vp, _, e := g.expelVoteproof(c.point, c.prevBlock, c.proposal, fmt.Sprintf("reason-h%d-%d", rng.Int63(), rng.Int63()))
 		if e != nil {
@@ -188,10 +197,12 @@ func (c *pctx) handlerPrepare(g *rig, rng *rand.Rand) {
 		}
 		g.handler.PrepareSuffrageConfirmBallot(vp)
 	case c.sp.Round == 0:
-		g.proposals.Delete(c.point.String())
+		g.setProposalKind(c.point, kind)
+		g.tot.add("handler_asked_for_kind_"+g.handlerKind(kind), 1)
 		err = g.handler.PrepareNextBlockBallot(c.avp, g.suf, time.Nanosecond)
 	default:
-		g.proposals.Delete(c.point.String())
+		g.setProposalKind(c.point, kind)
+		g.tot.add("handler_asked_for_kind_"+g.handlerKind(kind), 1)
 		err = g.handler.PrepareNextRoundBallot(c.dvp, c.prevBlock, g.suf, time.Nanosecond)
 	}
 	if err != nil {
@@ -248,11 +259,11 @@ func (g *rig) deliver(bl base.Ballot, via string) (string, bool) {
 // handlerRound: handler makes its ballot for the stage point; returns after the
 // broadcast timer put a ballot of that stage point on the wire (or a generous
 // deadline: then the case goes on without it), timers stopped.
-func (g *rig) handlerRound(c *pctx, rng *rand.Rand) bool {
+func (g *rig) handlerRound(c *pctx, rng *rand.Rand, kind string) bool {
 	g.mu.Lock()
 	start := g.seq
 	g.mu.Unlock()
-	c.handlerPrepare(g, rng)
+	c.handlerPrepareKind(g, rng, kind)
 	ok := waitCond(time.Second*30, func() bool {
 		g.mu.Lock()
 		defer g.mu.Unlock()
@@ -333,7 +344,7 @@ func genHistory(rng *rand.Rand, ri int, height int64, nremotes int, state string
 	if rng.Intn(2) == 0 {
 		for i := laterOrder(s.P) + 1; i < len(laterKinds); i++ {
 			if rng.Intn(2) == 0 {
-				s.Later = append(s.Later, laterSpec{spSpec{height, laterKinds[i].round, laterKinds[i].kind}, vias()})
+				s.Later = append(s.Later, laterSpec{spSpec: spSpec{height, laterKinds[i].round, laterKinds[i].kind}, Via: vias()})
 			}
 		}
 	}
@@ -346,7 +357,7 @@ func genHistory(rng *rand.Rand, ri int, height int64, nremotes int, state string
 		perm := rng.Perm(len(laterKinds))[:n]
 		sort.Ints(perm)
 		for _, i := range perm {
-			s.Later = append(s.Later, laterSpec{spSpec{height + int64(d), laterKinds[i].round, laterKinds[i].kind}, vias()})
+			s.Later = append(s.Later, laterSpec{spSpec: spSpec{height + int64(d), laterKinds[i].round, laterKinds[i].kind}, Via: vias()})
 		}
 	}
 	if rng.Intn(4) == 0 {
@@ -367,6 +378,18 @@ func genHistory(rng *rand.Rand, ri int, height int64, nremotes int, state string
 	}
 	rng.Shuffle(len(s.Offers), func(i, j int) { s.Offers[i], s.Offers[j] = s.Offers[j], s.Offers[i] })
 	s.Concurrent = rng.Intn(10) < 3
+	// kinds of fact: every ballot offered for P, and every later one, draws one
+	// of the kinds valid for its stage
+	for i := 0; i < s.FirstRemotes; i++ {
+		s.FirstKinds = append(s.FirstKinds, drawKind(rng, s.P.Kind))
+	}
+	s.HandlerKind = drawKind(rng, s.P.Kind)
+	for range s.Offers {
+		s.OfferKinds = append(s.OfferKinds, drawKind(rng, s.P.Kind))
+	}
+	for i := range s.Later {
+		s.Later[i].FactKind = drawKind(rng, s.Later[i].Kind)
+	}
 	return s
 }
 
@@ -398,7 +421,7 @@ func (g *rig) runHistory(ri int, spec histSpec) {
 	// ---- 1. sign: the local node's ballot for P
 	var firsts []base.Ballot
 	for i := 0; i < spec.FirstRemotes; i++ {
-		bl, err := c.ballot(g, rng, c.signer(g, i))
+		bl, err := c.ballotKind(g, rng, c.signer(g, i), spec.FirstKinds[i])
 		if err != nil {
 			fail("harness made an invalid ballot", err)
 			return
@@ -432,7 +455,7 @@ func (g *rig) runHistory(ri int, spec histSpec) {
 		go func() {
 			defer wg.Done()
 			<-startch
-			handlerOnWire = g.handlerRound(c, hrng)
+			handlerOnWire = g.handlerRound(c, hrng, spec.HandlerKind)
 		}()
 	}
 	close(startch)
@@ -448,8 +471,9 @@ func (g *rig) runHistory(ri int, spec histSpec) {
 	g.mu.Lock()
 	firstPath := ""
 	firstFact := ""
+	firstKind := ""
 	if w := g.wires[c.key]; len(w) > 0 {
-		firstPath, firstFact = w[0].path, w[0].fact
+		firstPath, firstFact, firstKind = w[0].path, w[0].fact, w[0].kind
 	}
 	var refused []base.Ballot
 	seen := map[string]bool{firstFact: true}
@@ -479,11 +503,11 @@ func (g *rig) runHistory(ri int, spec histSpec) {
 		via := l.Via
 		switch via {
 		case "handler":
-			if !g.handlerRound(lc, rng) {
+			if !g.handlerRound(lc, rng, l.FactKind) {
 				g.tot.add("history_handler_ballot_not_on_wire_in_time", 1)
 			}
 		case "remote-store":
-			bl, err := lc.ballot(g, rng, lc.signer(g, li))
+			bl, err := lc.ballotKind(g, rng, lc.signer(g, li), l.FactKind)
 			if err != nil {
 				fail("harness made an invalid ballot", err)
 				return
@@ -495,7 +519,7 @@ func (g *rig) runHistory(ri int, spec histSpec) {
 				}
 			})
 		default:
-			bl, err := lc.ballot(g, rng, lc.signer(g, li))
+			bl, err := lc.ballotKind(g, rng, lc.signer(g, li), l.FactKind)
 			if err != nil {
 				fail("harness made an invalid ballot", err)
 				return
@@ -542,15 +566,17 @@ func (g *rig) runHistory(ri int, spec histSpec) {
 	g.mu.Unlock()
 
 	// ---- 3. offer: a different fact for the old stage point through each path
-	var offered []string
+	var offered, offeredKinds []string
 	var offmu sync.Mutex
 	offer := func(oi int, path string) {
 		orng := g.r.Rand(38, g.idx, ri, oi)
 		eff := path
+		okind := ""
 		switch path {
 		case "mimic-direct", "mimic-box":
+			okind = spec.OfferKinds[oi]
 			// a sync source lagging behind: a node which did not sign in step 1
-			bl, err := c.ballot(g, orng, c.signer(g, spec.FirstRemotes+oi))
+			bl, err := c.ballotKind(g, orng, c.signer(g, spec.FirstRemotes+oi), spec.OfferKinds[oi])
 			if err != nil {
 				fail("harness made an invalid ballot", err)
 				return
@@ -561,7 +587,8 @@ func (g *rig) runHistory(ri int, spec histSpec) {
 				return
 			}
 		case "handler":
-			if !g.handlerRound(c, orng) {
+			okind = g.handlerKind(spec.OfferKinds[oi])
+			if !g.handlerRound(c, orng, spec.OfferKinds[oi]) {
 				g.tot.add("history_handler_ballot_not_on_wire_in_time", 1)
 			}
 		case "rebroadcast-refused":
@@ -584,6 +611,9 @@ func (g *rig) runHistory(ri int, spec histSpec) {
 		g.tot.add("history_offers_for_old_stage_point_via_"+eff, 1)
 		offmu.Lock()
 		offered = append(offered, eff)
+		if okind != "" {
+			offeredKinds = append(offeredKinds, okind)
+		}
 		offmu.Unlock()
 	}
 	if spec.Concurrent {
@@ -649,9 +679,18 @@ func (g *rig) runHistory(ri int, spec histSpec) {
 	sort.Strings(vias)
 	vias = uniq(vias)
 	sort.Strings(offered)
-	fp := fmt.Sprintf("history/%s.r%d/first=%s/refused=%v/k=%d/top=%v/later=%d:%s/offers=%s/conc=%v/%s",
+	sort.Strings(offeredKinds)
+	offeredKinds = uniq(offeredKinds)
+	g.tot.add("histories_first_broadcast_kind_"+firstKind, 1)
+	for _, k := range offeredKinds {
+		if k != firstKind {
+			g.tot.add("histories_offering_another_kind_of_fact_than_the_first", 1)
+			break
+		}
+	}
+	fp := fmt.Sprintf("history/%s.r%d/first=%s/refused=%v/k=%d/top=%v/later=%d:%s/offers=%s/conc=%v/kinds=%s>%s/%s",
 		spec.P.Kind, spec.P.Round, firstPath, len(refused) > 0, spec.K, topStored, laterStored,
-		strings.Join(vias, "+"), strings.Join(uniq(offered), "+"), spec.Concurrent, spec.State)
+		strings.Join(vias, "+"), strings.Join(uniq(offered), "+"), spec.Concurrent, firstKind, strings.Join(offeredKinds, "+"), spec.State)
 	if laterStored > 0 && topStored && len(offered) > 0 {
 		g.tot.add("histories_complete", 1) // signed, later stage points up to H+k stored, then offered again
 		if depth := g.cleanDepth; spec.K > depth {
